@@ -8,5 +8,6 @@ CONSTANTS
   HkSet = {FALSE}
   CondSet <- NoCondSet
   CSet = {0}
+  ModeKinds = {"none"}
 PROPERTY AllComplete
 CHECK_DEADLOCK FALSE
